@@ -254,16 +254,29 @@ func lenClass(c Case) string {
 // probe response must come back intact) passes for this record type / codec / domain on a
 // transparent path. Oracles (a) and (b) apply to selectable combinations only; for the
 // others nothing but "no crash" is required (the client would never choose them).
-var selCache = map[string]bool{}
 
 func selectable(rt uint16, codec, domain string) bool {
+	return probeOutcome(rt, codec, domain) == "ok"
+}
+
+var probeCache = map[string]string{}
+
+func probeOutcome(rt uint16, codec, domain string) string {
 	k := fmt.Sprintf("%d/%s/%s", rt, codec, domain)
-	if v, ok := selCache[k]; ok {
+	if v, ok := probeCache[k]; ok {
 		return v
 	}
 	out, _ := roundtrip(Case{Kind: "downprobe", RType: rt, Codec: codec, Domain: domain})
-	selCache[k] = out == "ok"
-	return out == "ok"
+	probeCache[k] = out
+	return out
+}
+
+func binarySafe(rt uint16) bool {
+	switch dnsmessage.Type(rt) {
+	case util.QueryTypeNull, util.QueryTypePrivate, util.QueryTypeAAAA, util.QueryTypeA:
+		return true
+	}
+	return false
 }
 
 func panicClass(detail string) string {
@@ -285,6 +298,15 @@ func eval(r *mc.Run, c Case, mustWork bool) string {
 	switch {
 	case out == "panic":
 		r.Fail(fmt.Sprintf("panic|%s|%s", name, panicClass(detail)), fmt.Sprintf("%+v: %s", c, detail), c.Len+len(c.Domain), c)
+	case out == "silently-different" && !sel && (binarySafe(c.RType) || c.Codec == "Base32"):
+		// oracle (a) also covers combinations the codec probe does not vouch for but the client can
+		// still end up with: record types that carry arbitrary octets (NULL, PRIVATE, AAAA, A: no
+		// name/text escaping is involved, so every codec is transparent there; when only sizes that
+		// fill the last A/AAAA record can be packed, whatever does get through must be intact) and
+		// Base32, the downstream codec the client falls back to WITHOUT probing it. Host-name and
+		// text record types with other codecs are exempt unless their probe passes: the probe is
+		// what detects that the record type escapes part of the codec's alphabet.
+		r.Fail(fmt.Sprintf("silently-different|%s|%s|%s|%s", c.Kind, name, c.Codec, lenClass(c)), fmt.Sprintf("%+v: %s", c, detail), c.Len+len(c.Domain), c)
 	case !sel:
 	case out == "silently-different":
 		r.Fail(fmt.Sprintf("silently-different|%s|%s|%s|%s", c.Kind, name, c.Codec, lenClass(c)), fmt.Sprintf("%+v: %s", c, detail), c.Len+len(c.Domain), c)
